@@ -72,7 +72,9 @@ fn fault(rng: &mut Rng, bytes: &[u8]) -> (Vec<u8>, String) {
             let li = *rng.pick(&numeric);
             let line = &lines[li];
             // pick one digit run
-            let chars: Vec<char> = line.chars().collect();
+            // byte offsets throughout (a line faulted before may hold multi-byte characters; ASCII digits are single bytes, so
+            // the ends of a digit run are character boundaries)
+            let chars: &[u8] = line.as_bytes();
             let mut runs = Vec::new();
             let mut i = line.find(':').unwrap() + 1;
             while i < chars.len() {
@@ -329,6 +331,42 @@ fn enumerate_global_pairs(bytes: &[u8]) -> Vec<(Vec<u8>, String)> {
     out
 }
 
+/// the `OPTION[...]` lines (comma-separated `KEY=value` entries the engine reads after loading): an `=` removed, an empty
+/// entry, a bare key, an empty or non-numeric value, an unknown key — through `Engine::load`, which must return an engine or
+/// an error (seeded change C18j: an entry without `=` sliced an empty string)
+fn enumerate_option_faults(bytes: &[u8]) -> Vec<(Vec<u8>, String)> {
+    let mut out = Vec::new();
+    if !bytes.windows(7).any(|w| w == b"[DATA]\n") { return out; }
+    let p = split(bytes);
+    let lines: Vec<String> = p.head.lines().map(|s| s.to_string()).collect();
+    for (li, line) in lines.iter().enumerate() {
+        if !line.starts_with("OPTION[") { continue; }
+        let Some(colon) = line.find(':') else { continue };
+        let (key, val) = (&line[..colon + 1], &line[colon + 1..]);
+        let mut variants: Vec<(String, &'static str)> = Vec::new();
+        for (k, ch) in val.char_indices() {
+            if ch == '=' {
+                variants.push((format!("{}{}{}", key, &val[..k], &val[k + 1..]), "option-equals-removed"));
+                variants.push((format!("{}{}<{}", key, &val[..k], &val[k + 1..]), "option-equals-flipped"));
+                variants.push((format!("{}{}={}", key, &val[..k + 1], &val[k + 1..]), "option-equals-doubled"));
+            }
+        }
+        let sep = if val.is_empty() { "" } else { "," };
+        for (extra, kind) in [("", "option-trailing-comma"), ("BARE", "option-bare-key"), ("=", "option-only-equals"), ("GAMMA=", "option-empty-value"),
+                              ("ALPHA=abc", "option-text-value"), ("GAMMA=-1", "option-negative"), ("LN_GAIN=2", "option-flag-out-of-range"), ("FOO=1", "option-unknown-key")] {
+            variants.push((format!("{}{}{}{}", key, val, if extra.is_empty() { "," } else { sep }, extra), kind));
+        }
+        for (l2, kind) in variants {
+            let mut ls = lines.clone();
+            ls[li] = l2;
+            let mut head = ls.join("\n");
+            head.push('\n');
+            out.push((join(&Parts { head, data: p.data.clone() }), kind.to_string()));
+        }
+    }
+    out
+}
+
 pub fn gen(seed: u64, thorough: bool) {
     let mut rng = Rng::new(seed);
     let src = Sources::new();
@@ -358,6 +396,9 @@ pub fn gen(seed: u64, thorough: bool) {
     fixed.extend(enumerate_key_faults(&bases[1 % bases.len()]));
     // every pair of [GLOBAL] entries of one generated voice damaged together
     fixed.extend(enumerate_global_pairs(&bases[2 % bases.len()]));
+    // the option entries of two generated voices (one mel-cepstral, one LSP) damaged one at a time
+    fixed.extend(enumerate_option_faults(&bases[0]));
+    fixed.extend(enumerate_option_faults(&bases[1 % bases.len()]));
     let nfixed = fixed.len();
     for i in 0..(nfixed + n) {
         let (bytes, kind) = if i < nfixed { fixed[i].clone() } else {
